@@ -7,7 +7,8 @@ REPO = os.environ.get('VERIF_REPO', '/repo')
 LEAN = os.path.join(ROOT, 'lean')
 BIN = os.path.join(ROOT, 'bin')
 WORK = os.path.join(ROOT, 'work')
-EVID = os.path.join(ROOT, 'evidence')
+# evidence of runs against a scratch copy (VERIF_REPO) never overwrites the evidence for /repo
+EVID = os.path.join(ROOT, 'evidence') if REPO == '/repo' else os.path.join(WORK, 'evidence-scratch')
 NCPU = os.cpu_count() or 4
 
 ALLOWED_AXIOMS = {'propext', 'Classical.choice', 'Quot.sound'}
